@@ -314,10 +314,23 @@ func c08(c *Ctx) {
 					want = append(append([]c08Rec{}, good...), last)
 				}
 				replay := map[string]interface{}{"flg": last.Flg, "key": hex.EncodeToString(last.Key), "vallen": len(last.Val), "good_records": len(good), "cut": cut, "zero_tail": zt, "head_len": 18, "body_len": bodyLen}
+				// with the repaired reader a zero-filled torn record gets past the CheckSum comparison only by a
+				// collision of the 16-bit CRC (probability 2^-16 per such image): name that root cause
+				collision := false
+				if zt > 0 && len(data) >= goodLen+18 {
+					ln := int(binary.LittleEndian.Uint32(data[goodLen+4:]))
+					if ln > 0 && goodLen+18+ln <= len(data) && store.CheckSum(data[goodLen+18:goodLen+18+ln]) == binary.LittleEndian.Uint16(data[goodLen+16:]) {
+						collision = true
+						c.Count("crc16-collision-on-zero-tail")
+					}
+				}
 				if strings.HasPrefix(st, "err") || st == "panic" {
 					sig := "c08/torn-record-scan-error"
 					if zt > 0 {
 						sig = "c08/torn-record-scan-error/zero-tail"
+					}
+					if collision {
+						sig = "c08/torn-record-scan-error/zero-tail-crc16-collision"
 					}
 					c08Fail(c, sig, fmt.Sprintf("tmp.data = %d good records + first %d of %d bytes of the record in flight (+%d zero bytes): scanFile returns %s, FileQueue.Start panics", len(good), cut, len(rawLast), zt, st), replay)
 				} else if c08SameRecs(recs, append(append([]c08Rec{}, good...), last)) {
@@ -329,6 +342,9 @@ func c08(c *Ctx) {
 						sig := "c08/torn-record-redelivered"
 						if zt > 0 {
 							sig = "c08/torn-record-redelivered/zero-tail"
+						}
+						if collision {
+							sig = "c08/torn-record-redelivered/zero-tail-crc16-collision"
 						}
 						c08Fail(c, sig, fmt.Sprintf("record cut at byte %d (head 18, body %d, class %s, zero tail %d) is redelivered with a zero-filled body: %s", cut, bodyLen, class, zt, line[:min(len(line), 300)]), replay)
 					} else {
